@@ -243,3 +243,60 @@ Proof.
   split; [exact Hrem|].
   unfold match_del. rewrite Hp. unfold mutate. rewrite Hlab, Hf, Hdel, Hrep. reflexivity.
 Qed.
+
+(* ------------------------------------------------------------------ pop with a Match as data source *)
+Section PopFrom.
+Variable B H : positive.
+Variable depth : nat.
+Notation sev := (seval_h depth).
+
+(* pop(p, m0): m0 a current view of the document reached by child steps; the removal happens at the position
+   of m0 extended by the parent path of p *)
+Theorem pop_match_position_from doc (m0 : jtm) (p : list (vertex hp)) must tr (m : jtm) doc' es :
+  kipath p = true -> uniq doc -> NoDup (labels doc) -> wf m0 -> reach doc (abs m0) ->
+  pop_match B H depth (SrcMatch m0) doc p must tr = (Ok (Some m), doc', es) ->
+  exists pp v y y', p = pp ++ [v] /\ lookup doc (steps_of (abs m0) ++ pp) = Some y /\ child_at v y = Some (tdata m) /\
+                    remove v y = Some y' /\ doc' = put_at doc (steps_of (abs m0) ++ pp) y'.
+Proof.
+  intros Hk Hu Hnd Hw0 Hr0 Hpop. unfold pop_match, jget_match in Hpop.
+  pose proof (get_match_spec B H depth (SrcMatch m0) p must tr Hw0) as Hs. cbv zeta in Hs.
+  destruct (sem_deval hp sev p (kipath_pure sev p Hk) (kipath_valid p Hk) 0 (pmc tr) (abs (root_match (SrcMatch m0)))) as [Hok Hres].
+  unfold answer in Hs. rewrite Hres in Hs. red in Hok.
+  match type of Hs with context [fst ?X] => destruct X as [rg es0] end. cbn [fst] in Hs.
+  destruct rg as [[m1|]|e0]; try discriminate Hpop.
+  destruct (split_last p) as [[pp v]|] eqn:Hsp; [|discriminate Hpop].
+  pose proof (split_last_snoc _ _ _ Hsp) as Hp.
+  destruct (leaf_pop doc m1 v) as [[u|e1] d2] eqn:Hlp; [|discriminate Hpop]. injection Hpop as <- <- _.
+  destruct Hs as [(m2 & Hr & Hw & Hh) | [(Hr & _) | [(e & _ & _ & Hr) | (e & Hr & _)]]];
+    [injection Hr as <- | destruct must; simpl in Hr; discriminate Hr
+     | destruct e; try discriminate Hr; destruct must; simpl in Hr; discriminate Hr | discriminate Hr].
+  change (abs (root_match (SrcMatch m0))) with (abs m0) in *.
+  destruct (deval_ki sev p (abs m0) Hk) as [(c' & Hd & Hl) | (Hd & _)]; rewrite Hd in Hh; [|discriminate].
+  simpl in Hh. injection Hh as Hc'. subst c'.
+  assert (Hreach : reach doc (abs m1)).
+  { pose proof (deval_reach sev doc Hu p (abs m0) (kipath_no_parent p Hk) Hr0) as Hall.
+    rewrite Forall_forall in Hall. apply Hall. rewrite Hd. left. reflexivity. }
+  pose proof (deval_ki_steps sev p (abs m0) (abs m1) Hk (abs_nonempty m0) Hd) as Hsteps.
+  destruct (parent m1) as [pm|] eqn:Hpar.
+  2:{ destruct (kipath_snoc pp v ltac:(rewrite <- Hp; exact Hk)) as [_ Hkv].
+      destruct v; try discriminate Hkv; unfold leaf_pop in Hlp; rewrite Hpar in Hlp; discriminate Hlp. }
+  destruct (parent_chain m1 pm Hw (reach_top_par doc m1 Hreach) Hpar) as [Eabs Hwpm].
+  rewrite Eabs in Hreach. destruct (reach_ext_inv doc _ _ _ (abs_nonempty pm) Hreach) as [Hrpm Hc].
+  destruct (reach_chain_ok doc _ Hu Hrpm) as (_ & Hlpm & _).
+  rewrite (cdata_abs pm Hwpm) in Hlpm, Hc.
+  rewrite Eabs, steps_ext in Hsteps by apply abs_nonempty. rewrite Hp, app_assoc in Hsteps.
+  apply app_inj_tail in Hsteps. destruct Hsteps as [Epp Ev]. subst v.
+  destruct (delitem_remove (data_name m1) (tdata pm) (tdata m1) Hc) as (y' & i & Hdel & Hrem & Hlab).
+  assert (Hone : cnt (labels doc) i = 1).
+  { pose proof (lookup_cnt _ _ _ _ Hlpm Hlab). pose proof (proj1 (NoDup_count_occ Nat.eq_dec (labels doc)) Hnd i). lia. }
+  destruct (by_id_is_by_position _ doc (tdata pm) i y' Hlpm Hlab Hone) as [Hf Hrep].
+  exists pp, (vstep (data_name m1)), (tdata pm), y'. rewrite <- Epp.
+  split; [exact Hp|]. split; [exact Hlpm|]. split; [exact Hc|]. split; [exact Hrem|].
+  unfold leaf_pop in Hlp. rewrite Hpar in Hlp.
+  destruct (data_name m1) as [k|z]; cbn [vstep] in *;
+    destruct (tdata pm) as [| | | | | j its | j its] eqn:Etd; cbn [child_at] in Hc; try discriminate Hc;
+    unfold mutate in Hlp; cbn [label_of] in Hlp, Hlab; injection Hlab as ->; rewrite Hf, Hdel in Hlp;
+    injection Hlp as _ <-; exact Hrep.
+Qed.
+
+End PopFrom.
